@@ -42,13 +42,28 @@ def _canon_errs(errs):
     return [dbcommon.report(e) for e in errs]
 
 
-def _mode(text, cits, m, wanted):
+def _plugins(by_name):
+    """Plugin arguments for the front ends.  Looking a plugin up by name scans the installed entry points
+    (3 ms per lookup, 5 lookups per Python-engine run; C17 is about that), so most cases hand the plugin classes
+    over directly -- `find_plugin` returns a class argument unchanged -- and every 64th case uses the names."""
+    if by_name:
+        return {'bib_format': 'bibtex', 'style': 'unsrt', 'kw': {}}
+    from pybtex.database.input.bibtex import Parser
+    from pybtex.style.formatting.unsrt import Style
+    from pybtex.style.labels.number import LabelStyle
+    from pybtex.style.names.plain import NameStyle
+    from pybtex.style.sorting.none import SortingStyle
+    return {'bib_format': Parser, 'style': Style,
+            'kw': {'bib_format': Parser, 'label_style': LabelStyle, 'name_style': NameStyle, 'sorting_style': SortingStyle}}
+
+
+def _mode(text, cits, m, wanted, by_name=False):
     from pybtex import errors
     from pybtex.database import parse_string
     try:
         with errors.capture() as errs:
             kw = {'wanted_entries': list(cits)} if wanted else {}
-            bib = parse_string(text, 'bibtex', **kw)
+            bib = parse_string(text, _plugins(by_name)['bib_format'], **kw)
         read_reports = _canon_errs(errs)
         with errors.capture() as errs:
             expanded = list(bib._expand_wildcard_citations(list(cits)))
@@ -60,7 +75,7 @@ def _mode(text, cits, m, wanted):
         return compat.pybtex_error_kind(e)
 
 
-def _bibtex_engine(text, cits, m):
+def _bibtex_engine(text, cits, m, by_name=False):
     from pybtex import errors
     import pybtex.bibtex
     try:
@@ -71,23 +86,31 @@ def _bibtex_engine(text, cits, m):
         return compat.pybtex_error_kind(e)
 
 
-def _python_engine(text, cits, m):
+def _python_engine(text, cits, m, by_name=False):
     from pybtex import errors
     import pybtex
     try:
+        pl = _plugins(by_name)
         with errors.capture() as errs:
-            out = pybtex.format_from_string(text, 'unsrt', citations=list(cits), min_crossrefs=m,
-                                            output_backend=dbcommon.key_backend())
+            out = pybtex.format_from_string(text, pl['style'], citations=list(cits), min_crossrefs=m,
+                                            output_backend=dbcommon.key_backend(), **pl['kw'])
         return {'keys': [k for k, _ in dbcommon.split_bibitems(out)], 'reports': _canon_errs(errs)}
     except Exception as e:  # noqa
         return compat.pybtex_error_kind(e)
 
 
+def _by_name(case):
+    import json
+    import zlib
+    return zlib.crc32(json.dumps(case, sort_keys=True).encode('utf-8')) % 64 == 0
+
+
 def impl(case):
     text = dbcommon.bib_text(case['file'])
     cits, m = case['citations'], case['min_crossrefs']
-    return {'unfiltered': _mode(text, cits, m, False), 'filtered': _mode(text, cits, m, True),
-            'bibtex': _bibtex_engine(text, cits, m), 'python': _python_engine(text, cits, m)}
+    bn = _by_name(case)
+    return {'unfiltered': _mode(text, cits, m, False, bn), 'filtered': _mode(text, cits, m, True, bn),
+            'bibtex': _bibtex_engine(text, cits, m, bn), 'python': _python_engine(text, cits, m, bn)}
 
 
 def model_out(case, reply):
